@@ -31,7 +31,9 @@ def same_wallet(ob, ev, found, facts, cls, exp, what, where):
     nl = normal_leaves(found)
     ob.require(len(nl) >= 1, what + ': a wallet is returned', where)
     for cs, leaf in nl:
-        fx = Facts(known_at(facts if facts is not None else Facts(), cs))
+        # the wallet exists, so its master secret is a valid scalar (master_key refused anything else; an extended key
+        # carries a valid scalar by definition): observations are made under that fact
+        fx = Facts(known_at(facts if facts is not None else Facts(), cs) | closure([T.raw_op('VALID_SK', mk_)]))
         if not ob.require(T.tag(leaf) == 'obj' and leaf[1] == cls, what + ': a %s object' % cls.split('.')[-1], where,
                           found=T.show(leaf, maxdepth=2)):
             continue
